@@ -1150,6 +1150,11 @@ class Interp:
                 self.ctx.assume(b.z > 0)
                 self.reg.note("integer // and % only modelled for positive divisors")
             return VInt(a.z / b.z) if isinstance(op, ast.FloorDiv) else VInt(a.z % b.z)
+        if isinstance(op, (ast.RShift, ast.LShift)) and isinstance(a, VInt) and isinstance(b, VInt):
+            # shifts by a constant: floor division / multiplication by 2**k (exact, also for negative a)
+            cb = self.concrete(b)
+            if isinstance(cb, int) and 0 <= cb <= 256:
+                return VInt(a.z / (2 ** cb)) if isinstance(op, ast.RShift) else VInt(a.z * (2 ** cb))
         if isinstance(op, ast.Div) and isinstance(a, (VInt, VReal)) and isinstance(b, (VInt, VReal)):
             if self.ctx.branch(self._real(b) == 0):
                 self.raise_("ZeroDivisionError")
@@ -1937,7 +1942,7 @@ _NOCONST = _NoConst()
 BUILTINS = {"len", "isinstance", "int", "str", "bytes", "list", "dict", "set", "tuple", "sorted", "range", "min", "max",
             "print", "type", "repr", "getattr", "hasattr", "bool", "filter", "map", "zip", "enumerate", "any", "all",
             "sum", "abs", "ord", "chr", "hex", "float", "object", "super", "iter", "next", "callable", "open", "id",
-            "frozenset", "reversed", "bytearray", "issubclass", "setattr", "divmod", "round", "hash"}
+            "frozenset", "reversed", "bytearray", "issubclass", "setattr", "divmod", "round", "hash", "input"}
 
 _pcache = {}
 
